@@ -67,6 +67,13 @@ MUT = {
  'A10b level offset relative to the global maximum (local-scale tolerance)': (A, [rep("    post = np.mean(values[ind + 1:])", "    post = np.mean(values[ind + 1:]) + 1e-10 * np.max(np.abs(values))")]),
  'A11 strictly monotone series handled by a shortcut': (A, [rep("    if dir == 'down':  # if step", "    if npts > 3 and values.dtype.kind == 'f' and np.all(np.diff(values) > 0):\n        err = err[::-1].copy()\n    if dir == 'down':  # if step")]),
  'A14 Z*R capped at 1.079 in sd_nzs only (corner Z=0.6, R=1.8 of the code ranges)': (D, [rep("    sd = c_h * z_factor * n_factor * r_factor", "    sd = c_h * min(z_factor * r_factor, 1.079) * n_factor")]),
+ # ---- wave 5: even centred windows judged against the library's convention; extreme scales
+ 'J centre half width round((steps-1)/2): even windows with steps % 4 == 2 move one sample (seeded C20-J)': (A, [rep("        s = int(np.floor(steps / 2))", "        s = int(round((steps - 1) / 2))")]),
+ 'X1 roll-av all-zero shortcut tested through squares (tiny series)': (A, [rep("    steps = int(steps)\n    if mode == 'forward':", "    steps = int(steps)\n    if np.sum(np.asarray(values, dtype=float) ** 2) == 0:\n        return np.zeros(len(values))\n    if mode == 'forward':")]),
+ 'X2 interp2d spacing tested through a product (tiny node scale)': (G, [rep("np.where(denom > 0, denom, 1)", "np.where(denom * denom > 0, denom, 1)"), rep("np.where(denom > 0, (x - a0) / denom_adj, 1)", "np.where(denom * denom > 0, (x - a0) / denom_adj, 1)")]),
+ 'X3 step error |d| computed as sqrt(d*d) (p=1 at extreme scales)': (A, [rep("err_pre = np.sum(np.abs(pre_a - pre_mean[:, np.newaxis]) ** pow, axis=1)", "err_pre = np.sum(np.sqrt((pre_a - pre_mean[:, np.newaxis]) ** 2) ** pow, axis=1)")]),
+ 'X4 level of an all-tiny side flushed to zero (absolute epsilon 1e-200)': (A, [rep("    pre = np.mean(values[:ind])\n", "    pre = np.mean(values[:ind])\n    pre = 0.0 if abs(pre) < 1e-200 else pre\n")]),
+ 'F41 interp2d clip of far-outside queries removed (queries > 2**53 node spans above the table extrapolate)': (G, [rep('    x = np.clip(x, np.min(xf), np.max(xf))  # values outside the table take the end rows\n', "")]),
 }
 def run(name):
     f, edits = MUT[name]
